@@ -75,6 +75,7 @@ type Inc struct {
 	obsStates   []raft.RaftState
 	imageAtBoot bootImage
 	openedSnapIdx uint64
+	openFailed    map[string]bool // snapshots whose Open failed (injected) during start-up
 	beyondSince time.Duration
 	bootFaults  int64
 	cfgHist     []cfgHistRec
@@ -167,7 +168,8 @@ func (w *World) violate(prop, class, format string, a ...any) *Violation {
 	for i := range w.viol {
 		if w.viol[i].Class == class {
 			w.stats.Repeats[class]++
-			return &w.viol[i]
+			// the first instance is the one judged: facts the caller adds for a repeat are discarded
+			return &Violation{Facts: map[string]string{}}
 		}
 	}
 	v.Facts["hb_fastpath"] = fmt.Sprint(w.cfg.HeartbeatFastPath)
